@@ -7,9 +7,31 @@ numbering of `match self.0.__state` arms.
 -/
 namespace Lexgen
 
-/-- `CgCtx::new`: sorted vector of states with exactly one predecessor. -/
+/-- `n_inline_sites`: number of places in the code generated for `pred` where the code of its
+successor `s` would be inlined. Characters with the same next state share one arm, and so do
+ranges; the default (any) arm is also the fall-through of every accepting arm. -/
+def inlineSites (pred : DState Trans) (s : Nat) : Nat :=
+  let goes (t : Trans) : Bool := match t with | .goto n => n == s | .accept _ => false
+  let isAcc (t : Trans) : Bool := match t with | .accept _ => true | .goto _ => false
+  (if pred.chars.any (fun e => goes e.2) then 1 else 0) +
+  (if pred.ranges.any (fun r => goes r.2.2) then 1 else 0) +
+  (match pred.any with
+   | some t =>
+     if goes t then 1 + (pred.chars.filter (fun e => isAcc e.2)).length + (pred.ranges.filter (fun r => isAcc r.2.2)).length
+     else 0
+   | none => 0)
+
+/-- Whether the code of state `i` is inlined at its only use site: not an initial state, exactly
+one predecessor, reached from it by a single `match` arm. -/
+def isInlined (d : DFA Trans) (i : Nat) : Bool :=
+  !(d.st i).initial &&
+  match (d.st i).preds with
+  | [p] => inlineSites (d.st p) i == 1
+  | _ => false
+
+/-- `CgCtx::new`: sorted vector of the inlined states. -/
 def inlinedStates (d : DFA Trans) : List Nat :=
-  (List.range d.length).filter fun i => (d.st i).preds.length == 1
+  (List.range d.length).filter fun i => isInlined d i
 
 /-- `CgCtx::renumber_state`: both results of the binary search carry the number of inlined
 states below `s`. -/
@@ -24,7 +46,7 @@ deriving Repr, DecidableEq, Inhabited
 /-- `generate_state_arms`: (pattern, state whose code the arm holds), in arm order. -/
 def stateArms (d : DFA Trans) : List (Pat × Nat) :=
   let inl := inlinedStates d
-  ((List.range d.length).filter fun i => !((d.st i).preds.length == 1 && !(d.st i).initial)).map fun i =>
+  ((List.range d.length).filter fun i => !isInlined d i).map fun i =>
     let n := renumber inl i
     (if n == d.length - inl.length - 1 then Pat.wild else Pat.num n, i)
 
@@ -40,7 +62,7 @@ def switchTable (d : DFA Trans) (entries : List (String × Nat)) : List (String 
   let inl := inlinedStates d
   entries.map fun e => (e.1, renumber inl e.2)
 
-/-- Whether the code of `t` is inlined at a transition site (`predecessors.len() == 1`). -/
-def inlinedAt (d : DFA Trans) (t : Nat) : Bool := (d.st t).preds.length == 1
+/-- Whether the code of `t` is inlined at a transition site (`ctx.is_inlined`). -/
+def inlinedAt (d : DFA Trans) (t : Nat) : Bool := isInlined d t
 
 end Lexgen
